@@ -49,12 +49,6 @@ Section Loads.
     | _ => []
     end.
 
-  Definition measured (md : option udata) (i : nat) (t : blk) : bool :=
-    match t with
-    | Pb _ _ => match (match md with Some m => nth_error (d_blocksizes m) i | None => None end) with Some _ => false | None => true end
-    | _ => false
-    end.
-
   (* makeReader, link by link: measure the link if its size is not declared; the first child the offset falls strictly
      inside is opened at once (Seek on its reader loads it) - before the links after it are measured *)
   Definition mtrace (md : option udata) (off : Z) :=
@@ -80,7 +74,10 @@ Section Loads.
               end
       | _ =>
         match ulink_sizes fault (usize fault) (node_meta d) 0 ls with
-        | Err e => sload_list (utrace b) (SErr e)
+        | Err e => sload_list (utrace b) (SErr (match seek_fault fault (node_meta d) off 0 ls (usizes_prefix fault (usize fault) (node_meta d) 0 ls) 0 with
+                                                | Some e' => e'
+                                                | None => e
+                                                end))
         | Panic => SErr EOther
         | Ok sizes =>
           sload_list (mtrace (node_meta d) off 0%nat ls sizes 0)
@@ -156,7 +153,11 @@ Definition go_linksL (fault : blk -> option err) (md : option udata) (rec : blk 
 Lemma ustreamL_pb fault d l ls off :
   ustreamL fault (Pb d (l :: ls)) off =
   match ulink_sizes fault (usize fault) (node_meta d) 0 (l :: ls) with
-  | Err e => sload_list (utrace fault (Pb d (l :: ls))) (SErr e)
+  | Err e => sload_list (utrace fault (Pb d (l :: ls)))
+                        (SErr (match seek_fault fault (node_meta d) off 0 (l :: ls) (usizes_prefix fault (usize fault) (node_meta d) 0 (l :: ls)) 0 with
+                               | Some e' => e'
+                               | None => e
+                               end))
   | Panic => SErr EOther
   | Ok sizes => sload_list (mtrace fault (node_meta d) off 0%nat (l :: ls) sizes 0)
                            (go_linksL fault (node_meta d) (ustreamL fault) off 0 (l :: ls) sizes 0)
@@ -234,3 +235,130 @@ Theorem unsized_order_refuted :
     let '(_, loads, st) := drain_all (ustreamL nofault b 0) [] [] in
     st = StEOF /\ first_requests [] loads <> tl (preorder b).
 Proof. exists ex_mixed. vm_compute. split; [reflexivity|]. split; [reflexivity|]. discriminate. Qed.
+
+(* ---- every request of the extended reader is for a block of the DAG strictly below the node being read ---- *)
+Lemma sloads_sload_list l k : sloads (sload_list l k) = l ++ sloads k.
+Proof. induction l as [|b r IH]; cbn; [reflexivity|rewrite IH; reflexivity]. Qed.
+
+Lemma sloads_sapp_incl a b : incl (sloads (sapp a b)) (sloads a ++ sloads b).
+Proof.
+  induction a as [|x k IH|x k IH|x e|e]; cbn [sapp sloads app].
+  - apply incl_refl.
+  - intros y [->|Hy]; [left; reflexivity|right; apply IH; exact Hy].
+  - exact IH.
+  - intros y [->|[]]. left. reflexivity.
+  - intros y [].
+Qed.
+
+Lemma preorder_hd b : In b (preorder b).
+Proof. destruct b; cbn; left; reflexivity. Qed.
+
+Lemma tl_preorder_pb d ls : tl (preorder (Pb d ls)) = flat_map (fun l => preorder (l_target l)) ls.
+Proof. reflexivity. Qed.
+
+Lemma tl_preorder_incl b : incl (tl (preorder b)) (preorder b).
+Proof. destruct b; cbn; intros x Hx; right; exact Hx. Qed.
+
+Section Inside.
+  Variable fault : blk -> option err.
+
+  Definition utrace_links (md : option udata) (rec : blk -> list blk) :=
+    fix go (i : nat) (ls : list plink) : list blk :=
+      match ls with
+      | [] => []
+      | PLink _ ts t :: r =>
+        match t with
+        | Raw _ => match ts with Some _ => go (S i) r | None => [] end
+        | Ext _ _ => []
+        | Pb _ _ =>
+          match (match md with Some m => nth_error (d_blocksizes m) i | None => None end) with
+          | Some _ => go (S i) r
+          | None =>
+            match fault t with
+            | Some _ => [t]
+            | None => t :: (if has_filesize t then [] else rec t)
+                        ++ match usize fault t with Ok z => if z <? 0 then [] else go (S i) r | _ => [] end
+            end
+          end
+        end
+      end.
+
+  Lemma utrace_pb d ls : utrace fault (Pb d ls) = utrace_links (node_meta d) (utrace fault) 0 ls.
+  Proof. reflexivity. Qed.
+
+  Lemma utrace_links_inside md (rec : blk -> list blk) ls :
+    Forall (fun l => incl (rec (l_target l)) (tl (preorder (l_target l)))) ls ->
+    forall i, incl (utrace_links md rec i ls) (flat_map (fun l => preorder (l_target l)) ls).
+  Proof.
+    induction 1 as [|[n ts t] r Ht _ IHr]; intros i; [intros x []|].
+    cbn [flat_map l_target] in *.
+    assert (Hr : forall j, incl (utrace_links md rec j r) (preorder t ++ flat_map (fun l => preorder (l_target l)) r)).
+    { intros j x Hx. apply in_or_app. right. exact (IHr j x Hx). }
+    cbn [utrace_links]. destruct t as [c|d' ls'|ei en].
+    - destruct ts; [apply Hr|intros x []].
+    - destruct (match md with Some m => nth_error (d_blocksizes m) i | None => None end); [apply Hr|].
+      destruct (fault (Pb d' ls')).
+      + intros x [<-|[]]. apply in_or_app. left. apply preorder_hd.
+      + intros x [<-|Hx]; [apply in_or_app; left; apply preorder_hd|].
+        apply in_app_or in Hx. destruct Hx as [Hx|Hx].
+        * apply in_or_app. left. destruct (has_filesize (Pb d' ls')); [destruct Hx|]. apply tl_preorder_incl. apply Ht. exact Hx.
+        * destruct (usize fault (Pb d' ls')) as [z| |]; try destruct Hx. destruct (z <? 0); [destruct Hx|exact (Hr (S i) x Hx)].
+    - intros x [].
+  Qed.
+
+  Lemma utrace_inside b : incl (utrace fault b) (tl (preorder b)).
+  Proof.
+    induction b as [c|i n|d ls IH] using blk_ind'; try (intros x []).
+    rewrite utrace_pb, tl_preorder_pb. apply utrace_links_inside. exact IH.
+  Qed.
+
+  Lemma mtrace_inside md off ls : forall i sizes at_,
+    incl (mtrace fault md off i ls sizes at_) (flat_map (fun l => preorder (l_target l)) ls).
+  Proof.
+    induction ls as [|[n ts t] r IH]; intros i sizes at_; [intros x []|].
+    destruct sizes as [|sz sr]; [intros x []|]. cbn [mtrace flat_map l_target].
+    intros x Hx. apply in_app_or in Hx. destruct Hx as [Hx|Hx].
+    - apply in_or_app. left. destruct (measured md i t); [|destruct Hx].
+      destruct Hx as [<-|Hx]; [apply preorder_hd|].
+      destruct (has_filesize t); [destruct Hx|]. apply tl_preorder_incl. apply utrace_inside. exact Hx.
+    - apply in_app_or in Hx. destruct Hx as [Hx|Hx].
+      + apply in_or_app. left. destruct (negb (at_ + sz <=? off) && (at_ <? off) && negb (measured md i t)); [|destruct Hx].
+        destruct Hx as [<-|[]]. apply preorder_hd.
+      + apply in_or_app. right. exact (IH (S i) sr (at_ + sz) x Hx).
+  Qed.
+
+  Lemma go_linksL_inside md (rec : blk -> Z -> strm) off ls : forall i sizes at_,
+    Forall (fun l => forall o, incl (sloads (rec (l_target l) o)) (tl (preorder (l_target l)))) ls ->
+    incl (sloads (go_linksL fault md rec off i ls sizes at_)) (flat_map (fun l => preorder (l_target l)) ls).
+  Proof.
+    induction ls as [|[n ts t] r IH]; intros i sizes at_ HF; [intros x []|].
+    inversion HF as [|? ? Ht Hr]; subst. cbn [l_target] in Ht.
+    destruct sizes as [|sz sr]; [intros x []|]. cbn [go_linksL flat_map l_target].
+    assert (Hrest : incl (sloads (go_linksL fault md rec off (S i) r sr (at_ + sz))) (preorder t ++ flat_map (fun l => preorder (l_target l)) r)).
+    { intros x Hx. apply in_or_app. right. exact (IH (S i) sr (at_ + sz) Hr x Hx). }
+    assert (Hboth : incl (sloads (sapp (rec t (Z.max 0 (off - at_))) (go_linksL fault md rec off (S i) r sr (at_ + sz))))
+                         (preorder t ++ flat_map (fun l => preorder (l_target l)) r)).
+    { intros x Hx. apply sloads_sapp_incl in Hx. apply in_app_or in Hx. destruct Hx as [Hx|Hx];
+        [apply in_or_app; left; apply tl_preorder_incl; apply (Ht _ x Hx)|apply Hrest; exact Hx]. }
+    destruct (at_ + sz <=? off); [exact Hrest|].
+    destruct (measured md i t); [exact Hboth|].
+    destruct (fault t).
+    - intros x [<-|[]]. apply in_or_app. left. apply preorder_hd.
+    - destruct (at_ <? off); [exact Hboth|].
+      intros x [<-|Hx]; [apply in_or_app; left; apply preorder_hd|apply Hboth; exact Hx].
+  Qed.
+
+  Theorem ustreamL_requests_inside b : forall off, incl (sloads (ustreamL fault b off)) (tl (preorder b)).
+  Proof.
+    induction b as [c|i n|d ls IH] using blk_ind'; intros off; try (intros x []).
+    destruct ls as [|l ls].
+    - cbn [ustreamL]. destruct (wrapped_bytes d); intros x [].
+    - rewrite ustreamL_pb, tl_preorder_pb.
+      destruct (ulink_sizes fault (usize fault) (node_meta d) 0 (l :: ls)) as [sizes|e|].
+      + rewrite sloads_sload_list. intros x Hx. apply in_app_or in Hx. destruct Hx as [Hx|Hx].
+        * exact (mtrace_inside (node_meta d) off (l :: ls) 0%nat sizes 0 x Hx).
+        * exact (go_linksL_inside (node_meta d) (ustreamL fault) off (l :: ls) 0%nat sizes 0 IH x Hx).
+      + rewrite sloads_sload_list. cbn [sloads]. rewrite app_nil_r. rewrite <- (tl_preorder_pb d (l :: ls)). apply utrace_inside.
+      + intros x [].
+  Qed.
+End Inside.
